@@ -109,6 +109,12 @@ def main(argv: List[str]) -> int:
         return 0
 
     # ---------------- exploration ----------------
+    import glob
+    for old_replay in glob.glob(os.path.join(ROOT, "replays", f"{prop}-*.json")):
+        try:
+            os.remove(old_replay)
+        except OSError:
+            pass
     try:
         rep: Report = mod.run(ctx)
     except HarnessError as exc:
